@@ -9,22 +9,29 @@ import (
 	"encoding/binary"
 	"errors"
 	"hash"
+	"sort"
 	"testing"
 
 	_ "golang.org/x/crypto/blake2b"
 )
 
-// recording hash: the k-th Sum returns the 16-byte big-endian encoding of k and
-// logs the bytes written since New/Reset.
-var recCalls [][]byte
+// recording hash: the k-th Sum of the process returns the 16-byte big-endian encoding of k and logs the bytes written
+// since New/Reset.  The numbering is never reset, so a digest the implementation kept from an earlier call (a cached
+// empty root, say) still names its preimage; every event ships the calls made during it plus whatever older calls its
+// results refer to.
+var recAll = map[uint32][]byte{}
+var recN uint32
+var recNew []uint32
 
 type recHash struct{ buf []byte }
 
 func (h *recHash) Write(p []byte) (int, error) { h.buf = append(h.buf, p...); return len(p), nil }
 func (h *recHash) Sum(b []byte) []byte {
-	recCalls = append(recCalls, append([]byte{}, h.buf...))
+	recN++
+	recAll[recN] = append([]byte{}, h.buf...)
+	recNew = append(recNew, recN)
 	var out [16]byte
-	binary.BigEndian.PutUint32(out[12:], uint32(len(recCalls)))
+	binary.BigEndian.PutUint32(out[12:], recN)
 	return append(b, out[:]...)
 }
 func (h *recHash) Reset()         { h.buf = nil }
@@ -73,10 +80,48 @@ func mkLeaves(in M) ([]encoding.BinaryMarshaler, [][]byte) {
 	return ls, raw
 }
 
-func callsOut() [][]int {
-	r := make([][]int, len(recCalls))
-	for i, c := range recCalls {
-		r[i] = vInts(c)
+func recID16(b []byte) uint32 {
+	if len(b) != 16 {
+		return 0
+	}
+	for _, x := range b[:12] {
+		if x != 0 {
+			return 0
+		}
+	}
+	return binary.BigEndian.Uint32(b[12:])
+}
+
+// callsOut: the calls of this event and the older calls reachable from the given digests (children of a 33-byte
+// preimage sit at offsets 1 and 17; whether that is the right shape is for the specification to say)
+func callsOut(roots ...[]byte) []M {
+	want := map[uint32]bool{}
+	var visit func(id uint32)
+	visit = func(id uint32) {
+		p, ok := recAll[id]
+		if !ok || want[id] {
+			return
+		}
+		want[id] = true
+		if len(p) == 33 {
+			visit(recID16(p[1:17]))
+			visit(recID16(p[17:33]))
+		}
+	}
+	for _, id := range recNew {
+		visit(id)
+	}
+	for _, r := range roots {
+		visit(recID16(r))
+	}
+	ids := make([]int, 0, len(want))
+	for id := range want {
+		ids = append(ids, int(id))
+	}
+	sort.Ints(ids)
+	r := make([]M, len(ids))
+	for i, id := range ids {
+		r[i] = M{"id": id, "inp": vInts(recAll[uint32(id)])}
 	}
 	return r
 }
@@ -180,13 +225,14 @@ func vRun(op string, in M) M {
 			keep[i] = append([]byte{}, raw[i]...)
 		}
 		keepLs := append([]encoding.BinaryMarshaler{}, ls...)
-		recCalls = nil
+		recNew = nil
 		hs := NewHasher(recID)
 		var root []byte
 		var err error
 		p := vCatch(func() { root, err = hs.Hash(ls) })
-		out := M{"ok": err == nil && p == "", "root": vInts(root), "calls": callsOut(), "err": -1, "panic": p,
-			"size": hs.Size(), "emptyroot_term_ok": true}
+		out := M{"ok": err == nil && p == "", "root": vInts(root), "err": -1, "panic": p,
+			"size": hs.Size(), "emptyroot": []int{}}
+		er := []byte{}
 		var le *leafErr
 		if err != nil && errors.As(err, &le) {
 			out["err"] = le.idx
@@ -197,11 +243,11 @@ func vRun(op string, in M) M {
 		}
 		out["unmodified"] = unmod
 		if len(ls) == 0 {
-			// EmptyRoot must be the same term as Hash(nil): H() over no input
-			recCalls = nil
-			er := hs.EmptyRoot()
-			out["emptyroot_term_ok"] = len(recCalls) == 1 && len(recCalls[0]) == 0 && len(er) == 16
+			// EmptyRoot must be the same term as Hash(nil): H() over no input (computed now or kept from earlier)
+			er = hs.EmptyRoot()
+			out["emptyroot"] = vInts(er)
 		}
+		out["calls"] = callsOut(root, er)
 		return out
 	case "merkle.Real":
 		n := vIntOf(in["n"])
@@ -258,6 +304,8 @@ func vRun(op string, in M) M {
 	}
 	panic("unknown op " + op)
 }
+
+func init() { vWBNames["merkle.lp2"] = true }
 
 func TestVerifDriver(t *testing.T) {
 	vMain(vRun, func(do func(string, M)) {
